@@ -122,11 +122,13 @@ def directions(dims, env):
         rho /= np.trace(rho).real
         out.append(('generic%d' % a, rho - np.eye(N) / N))
     res = []
-    for lab, op in out:
+    for k_, (lab, op) in enumerate(out):
         op = (op + op.conj().T) / 2
         op = op - np.trace(op) * np.eye(N) / N
         unit = op / (np.linalg.norm(op) / np.sqrt(2))  # Gell-Mann norm 1
-        res.append((lab, np.eye(N) / N + 0.1 * unit / N, unit))
+        # only the direction matters: the representatives handed to the library have DIFFERENT Gell-Mann norms, so that a
+        # batched call that mixes up per-item norms is visible
+        res.append((lab, np.eye(N) / N + (0.02 * (1 + k_ % 7)) * unit / N, unit))
     _DIRS[key] = res
     return res
 
